@@ -734,6 +734,24 @@ func (e *Env) call(n ECall) Val {
 			ref = v.Ref
 		}
 		return boolVal(and(app("<", "0", ref), app("<=", ref, e.st.alloc)))
+	case "memcap":
+		return Val{T: types.Typ[types.Int], K: KScalar, S: x.memcap()}
+	case "implements":
+		v := e.tr(n.Args[0])
+		ts := exprTypeString(n.Args[1])
+		t, err := x.C.ResolveType(x.P, e.pkgPath, ts)
+		if err != nil {
+			e.fail("%v", err)
+		}
+		if v.K != KIface {
+			e.fail("implements(): interface value expected")
+		}
+		if kt, ok := e.st.knownTag[v.Tag]; ok {
+			if it, isI := t.Underlying().(*types.Interface); isI {
+				return boolVal(fmt.Sprint(types.Implements(kt, it)))
+			}
+		}
+		return boolVal(and(not(eq(v.Tag, "0")), x.implTerm(v.Tag, t)))
 	case "istype":
 		v := e.tr(n.Args[0])
 		ts := exprTypeString(n.Args[1])
